@@ -47,14 +47,16 @@ def maxHashForScaled (s : Nat) : Nat :=
   | 1 => u64max
   | _ => toNatTrunc (fdiv (ofNat u64max) (ofNat s))
 
+/-- `scaled_for_max_hash` as it is in /repo now: `(u64::MAX as f64 / max_hash as f64).round() as u64` -/
 def scaledForMaxHash (m : Nat) : Nat :=
   match m with
   | 0 => 0
-  | _ => toNatTrunc (fdiv (ofNat u64max) (ofNat m))
+  | _ => toNatRound (fdiv (ofNat u64max) (ofNat m))
 
-def scaledForMaxHashRound (m : Nat) : Nat :=
+/-- the code before the repair (truncating cast); kept for the counter-example theorem -/
+def scaledForMaxHashTrunc (m : Nat) : Nat :=
   match m with
   | 0 => 0
-  | _ => toNatRound (fdiv (ofNat u64max) (ofNat m))
+  | _ => toNatTrunc (fdiv (ofNat u64max) (ofNat m))
 
 end Scaled
